@@ -296,7 +296,7 @@ func runC04(w *W) {
 		for off := 0; off < 64; off++ {
 			if !th {
 				// seed-selected 1/64 of the space plus the boundary-heavy lengths
-				if (l*64+off+int(w.Out.Seed))%8 != 0 && !(l <= 130) {
+				if (l*64+off+int(w.Out.Seed))%4 != 0 && !(l <= 130) {
 					continue
 				}
 			}
@@ -379,7 +379,7 @@ func runC04(w *W) {
 		}
 	}
 	// --- random escape-heavy strings, keys and values
-	nRand := 100000
+	nRand := 400000
 	if th {
 		nRand = 6000000
 	}
